@@ -31,6 +31,9 @@ structure Scenario where
   sess : Bool := false
   at1 : Option Nat := none
   at2 : Nat := 0
+  /-- stream `http`: the ticks (1-based) at which the foreign server reported ping as unsupported
+  (JSON-RPC -32601) on a TRANSIENT HTTP status (500/502/503/504/429) -/
+  transientMnf : List Nat := []
 
 /-- The time each ping was given until its deadline, as reported. -/
 inductive Deadlines
@@ -165,6 +168,8 @@ inductive Clause
   | ticksPending (pings want : List Nat) (I : Nat)
   /-- silent_stop: keepalive-F30 -/
   | f30 (stop tc start : Nat)
+  /-- silent_stop: keepalive-F31 -/
+  | f31 (m : Nat) (pings closes : List Nat)
   /-- close_time_bound: the (single) ping deadline is not half the interval -/
   | deadlineAll (v : Int) (I : Nat)
   /-- answer_resets: ping j+1 was given less than a fresh ping timeout -/
@@ -202,6 +207,15 @@ def f30Shape (I tc : Nat) (sched : List SpecPing) (pings : List Nat) : Option Cl
     if l.stop > tc ∧ l.stop ≥ (l.start / I + 1) * I ∧ pings.contains l.stop then some (.f30 l.stop tc l.start)
     else none
   | none => none
+
+/-- The shape of keepalive-F31: keep-alive has to end with the ping at tick `m`, which the peer answered
+"method not found" — on a transient HTTP status, whose body the streamable client drops — and it did
+not end: it pinged again, or closed the session. -/
+def f31Shape (transientMnf : List Nat) (os : List Nat) (kstar : Option Nat) (m : Nat) (pings closes : List Nat) :
+    Option Clause :=
+  if kstar.isNone ∧ os.any (· == 1) ∧ transientMnf.contains m ∧ (pings.length > m ∨ closes ≠ []) then
+    some (.f31 m pings closes)
+  else none
 
 /-- The instant ping `k` (1-based) of the schedule is issued / is over; 0 for `k = 0`. -/
 def startOf (sched : List SpecPing) (k : Nat) : Nat := if k = 0 then 0 else ((sched[k - 1]?).map (·.start)).getD 0
@@ -336,6 +350,7 @@ def monitor (sc : Scenario) (o : Obs) : Option Clause :=
     if kstar.isNone ∧ ¬ os.any (· == 1) ∧ ¬ sc.real then f30Shape I sc.tc sched o.pings else none
   let deadline : Option Clause := if sc.real ∨ o.pings.isEmpty then none else deadlineClause I o.pings o.to
   let quiet : Option Clause := if o.exit ∧ o.quietAfter then none else some .notQuiet
+  f31Shape sc.transientMnf os kstar m o.pings o.closes <|>
   if sc.sess then
     match o.sess with
     | none => f30 <|> deadline <|> longClause I sc.scripts <|> closing <|> ticks <|> some .badSess <|> quiet
